@@ -290,6 +290,16 @@ pub fn case(idx: u64, seed: u64, p: &Params, o: &mut CaseOut) {
                 y = y.filter_vertices(|v| v != 0);
             }
             same(o, &x, &y, "AdjacencyMap(two histories, sparse ids)");
+            // results of operations on sparse maps (sometimes with the largest
+            // legal id) against the same digraph built arc by arc
+            if r.below(3) == 0 && s.n() <= 24 {
+                let s2 = if r.chance(0.4) { gen::with_max_id(&s) } else { s.clone() };
+                let d = build_map_any(&s2);
+                same(o, &d.complement(), &build_map_any(&s2.complement()), "AdjacencyMap(sparse: complement vs add_arc)");
+                same(o, &d.converse(), &build_map_any(&s2.converse()), "AdjacencyMap(sparse: converse vs add_arc)");
+                same(o, &d.complement().complement(), &d, "AdjacencyMap(sparse: complement twice)");
+                same(o, &d.union(&build_map_any(&s)), &build_map_any(&s2.union(&s)), "AdjacencyMap(sparse: union vs add_arc)");
+            }
             nt
         }
         2 => {
